@@ -1188,6 +1188,9 @@ class SyncObj(object):
             self.__raftNextIndex[node] = self.__getCurrentLogIndex() + 1
             self.__raftMatchIndex[node] = 0
             self.__lastResponseTime[node] = monotonicTime()
+            # A snapshot transfer left over from an earlier term of ours must not be continued: the
+            # receiver has one buffer, another leader may have restarted it meanwhile.
+            self.__serializer.cancelTransmisstion(node)
 
         # No-op command after leader election.
         idx, term = self.__getCurrentLogIndex() + 1, self.__raftCurrentTerm
